@@ -13,6 +13,10 @@
      SaveLegacy(L)      a file written by an old version: logits only, no character tables / windows
      Load(L, k, lc)     load_logits(path | bytes)
      Dense(L, i, fl)    get_dense_logits(zero_logit_value = -fl) of line i (+ get_full_logprobs, judged in the trace layer)
+     Rescale(L, i)      the caller edits the stored logits of line i IN PLACE (line.logits *= 2 resp. *= 0.5, or the same on
+                        line.logits.data): the matrix object stays, its values change - tag t <-> t + 20 (round 9)
+     Scribble(L, i)     the caller modifies in place the arrays that earlier Dense calls of line i handed out (they are
+                        reconstructions, the caller owns them): no effect on anything (round 9)
      Observe(kind, L, i, tok)  an output computed from the layout: kind "decode" = transcription of line i produced by the
                         page decoder (a function of the line's logits and character table), kind "alto" = the text of the
                         ALTO export of the whole layout (a function of the lines' ids and their three components; the
@@ -26,6 +30,7 @@ CONSTANTS InitA, InitB,     \* sets of initial layouts
           Mats,             \* tag |-> matrix
           Floors,           \* magnitudes of the floor value exercised (80 = the default -80)
           SaveFrom, LoadInto, DenseOn,   \* design only: which layouts the calls are applied to (bounds the search)
+          EditOn,           \* design only: layouts whose lines the caller edits in place (Rescale / Scribble)
           ObsToks,          \* design only: tokens an output may take ({} switches Observe off)
           MaxOps
 
@@ -33,6 +38,15 @@ None == 0
 NoneNone == 1000
 Names == {"A", "B"}
 Slots == {"file", "bytes"}
+\* round 9: a matrix edited in place.  Tag t + ScaleOff = the matrix of tag t with every stored logit doubled (exact in binary
+\* floating point); the projection renders every stored 0 < |x| < 1e-6 as +-Tiny, doubled or not.
+ScaleOff == 20
+Tiny == 77
+ScaleOf(t) == IF t > ScaleOff THEN t - ScaleOff ELSE t + ScaleOff
+HasMat(t) == t \in DOMAIN Mats \/ (t > ScaleOff /\ (t - ScaleOff) \in DOMAIN Mats)
+MatOf(t) == IF t \in DOMAIN Mats THEN Mats[t]
+            ELSE LET m == Mats[t - ScaleOff]
+                 IN [r \in 1..Len(m) |-> [c \in 1..Len(m[r]) |-> IF m[r][c] \in {Tiny, 0 - Tiny} THEN m[r][c] ELSE 2 * m[r][c]]]
 Missing(l) == l.lg = None \/ l.ch = None \/ l.co = None
 Triple(l) == <<l.lg, l.ch, l.co>>
 NoStore == [present |-> FALSE, legacy |-> FALSE, ents |-> {}]
@@ -97,11 +111,27 @@ Load(L, k, lc) ==
 
 DenseOf(m, fl) == [r \in 1..Len(m) |-> [c \in 1..Len(m[r]) |-> IF m[r][c] = 0 THEN 0 - 8 * fl ELSE m[r][c]]]
 Dense(L, i, fl) ==
-  /\ nops < MaxOps /\ i \in 1..Len(lay[L]) /\ lay[L][i].lg \in DOMAIN Mats
-  /\ obs' = DenseOf(Mats[lay[L][i].lg], fl)
+  /\ nops < MaxOps /\ i \in 1..Len(lay[L]) /\ HasMat(lay[L][i].lg)
+  /\ obs' = DenseOf(MatOf(lay[L][i].lg), fl)
   /\ last' = Call("Dense", L, "file", FALSE, "ok", i, fl)
   /\ before' = lay /\ sbefore' = store /\ nops' = nops + 1
   /\ UNCHANGED <<lay, store, origin, obsmap>>
+
+\* the stored logits of line i are edited in place: the line now holds the scaled matrix, nothing else changes; every later
+\* Save / Load / Dense works on what the line holds NOW
+Rescale(L, i) ==
+  /\ nops < MaxOps /\ i \in 1..Len(lay[L]) /\ HasMat(lay[L][i].lg) /\ HasMat(ScaleOf(lay[L][i].lg))
+  /\ lay' = [lay EXCEPT ![L][i].lg = ScaleOf(@)]
+  /\ last' = Call("Rescale", L, "file", FALSE, "ok", i, 0)
+  /\ before' = lay /\ sbefore' = store /\ nops' = nops + 1
+  /\ UNCHANGED <<store, origin, obs, obsmap>>
+
+\* arrays handed out by earlier Dense calls are the caller's: whatever the caller does to them touches neither layout nor store
+Scribble(L, i) ==
+  /\ nops < MaxOps /\ i \in 1..Len(lay[L]) /\ HasMat(lay[L][i].lg)
+  /\ last' = Call("Scribble", L, "file", FALSE, "ok", i, 0)
+  /\ before' = lay /\ sbefore' = store /\ nops' = nops + 1
+  /\ UNCHANGED <<lay, store, origin, obs, obsmap>>
 
 Observe(kind, L, i, tok) ==
   /\ nops < MaxOps /\ kind \in {"decode", "alto"}
@@ -118,6 +148,7 @@ Next == \/ \E L \in SaveFrom, k \in Slots, ok \in BOOLEAN : Save(L, k, ok)
         \/ \E L \in SaveFrom : SaveLegacy(L)
         \/ \E L \in LoadInto, k \in Slots : Load(L, k, LegacyDefault(L))
         \/ \E L \in DenseOn, fl \in Floors : \E i \in 1..Len(lay[L]) : Dense(L, i, fl)
+        \/ \E L \in EditOn : \E i \in 1..Len(lay[L]) : Rescale(L, i) \/ Scribble(L, i)
         \/ \E L \in DenseOn, tok \in ObsToks : \/ Observe("alto", L, 0, tok)
                                                  \/ \E i \in 1..Len(lay[L]) : Observe("decode", L, i, tok)
 Spec == Init /\ [][Next]_vars
@@ -166,11 +197,19 @@ InvReports ==
 \* dense reconstruction: stored logits unchanged, floor elsewhere, the layout untouched
 InvDense ==
   (last.op = "Dense") =>
-     LET m == Mats[before[last.L][last.i].lg]
+     LET m == MatOf(before[last.L][last.i].lg)       \* what the line held when the call was made - on EVERY call
      IN /\ Len(obs) = Len(m)
         /\ \A r \in 1..Len(m) : /\ Len(obs[r]) = Len(m[r])
                                 /\ \A c \in 1..Len(m[r]) : obs[r][c] = IF m[r][c] # 0 THEN m[r][c] ELSE 0 - 8 * last.fl
         /\ lay = before /\ store = sbefore
+\* in-place edits by the caller: only the edited line's matrix changes (to the scaled one); modifying arrays that were handed
+\* out changes nothing
+InvEdit ==
+  /\ (last.op = "Scribble") => (lay = before /\ store = sbefore)
+  /\ (last.op = "Rescale") =>
+        /\ store = sbefore /\ lay[Other(last.L)] = before[Other(last.L)] /\ Len(lay[last.L]) = Len(before[last.L])
+        /\ \A j \in 1..Len(lay[last.L]) :
+              IF j = last.i THEN lay[last.L][j] = [before[last.L][j] EXCEPT !.lg = ScaleOf(@)] ELSE lay[last.L][j] = before[last.L][j]
 \* a layout rebuilt from the saved logits gives the same outputs as the original: outputs are functions of the restored
 \* components (obsmap is a function), and InvRestore says the components are restored
 InvFunctional == \A e, f \in obsmap : (e.kind = f.kind /\ e.key = f.key) => e.tok = f.tok
